@@ -52,6 +52,8 @@ DiffLines(d) ==
 (* [analysed, ins, del] *)
 Analyse(d) ==
   IF ~d.has \/ d.raw = <<>> \/ d.type = "binary" THEN [an |-> FALSE, ins |-> 0, del |-> 0, unspec |-> FALSE]
+  ELSE IF d.codec.fam \in {"unknown", "opaque"}          \* a diff declared in something that is no text codec:
+       THEN [an |-> FALSE, ins |-> 0, del |-> 0, unspec |-> TRUE]   \* outside C13's quantifier
   ELSE LET dl == DiffLines(d) IN
     IF ~dl.ok THEN [an |-> FALSE, ins |-> 0, del |-> 0, unspec |-> TRUE]
     ELSE IF \E i \in 1..Len(dl.lines) : \E q \in 1..Len(dl.lines[i]) : dl.lines[i][q] = 10
